@@ -1145,6 +1145,12 @@ where
         // Drop the most significant bits up to the desired length, but make sure
         // they encode 0.
         let nb_bits = nb_bits.unwrap_or(K::NUM_BITS as usize);
+        // More bits may be requested than the limbs hold (e.g. whole bytes of a
+        // 255-bit field emulated with 5 limbs of 51 bits): pad with zeros.
+        if nb_bits > bits.len() {
+            let zero: AssignedBit<F> = self.native_gadget.assign_fixed(layouter, false)?;
+            bits.resize(nb_bits, zero);
+        }
         bits[nb_bits..]
             .iter()
             .try_for_each(|byte| self.native_gadget.assert_equal_to_fixed(layouter, byte, false))?;
